@@ -151,7 +151,11 @@ func jsonrtStream(rng *rand.Rand, n int, tier string, out string) (*Summary, err
 	}
 	for _, name := range names {
 		p := reg.Get(name)
-		tf := newTreeFile(p, "tcase", "tmismatches", "Corr.TreeCorr")
+		// besides comparing outputs, every generated tree must satisfy the hypotheses of the C01
+		// theorems (wf_schemab/wf_envb/wf_cfgb/wf_treeb) and the theorem's conclusion is
+		// re-evaluated with the model: the theorem then speaks about the trees the real
+		// generated packages hold
+		tf := newTreeFile(p, "tcase", "(fun s e f c => (if schema_wf_ok s && env_wf_ok e then [] else [999999%nat]) ++ tmismatches s e f c ++ wf_case_mismatches s e f c ++ cfg_case_mismatches e c ++ c01_case_mismatches s e f c)", "Corr.TreeCorr Tree.RoundTrip Corr.WfCorr")
 		g := newTreeGen(rng, p)
 		for i := 0; i < per; i++ {
 			if i%7 == 3 {
